@@ -257,3 +257,112 @@ func sortStrings(s []string) {
 		}
 	}
 }
+
+// crossValidate runs the unit's harnesses natively on sampled path models and compares
+// assertion outcomes and witness values with what the symbolic execution derived.
+func crossValidate(id string, u *Unit, samples []*XSample, repo string) (ok, fail int, msg string) {
+	d := filepath.Join(verifRoot, "replays", id)
+	os.MkdirAll(d, 0o755)
+	pkgDir := filepath.Join(repo, u.Pkg)
+	pkgName, err := packageName(pkgDir)
+	if err != nil {
+		return 0, 0, err.Error()
+	}
+	var sb strings.Builder
+	fmt.Fprintf(&sb, "package %s\n\nimport \"testing\"\n\n// generated by symgo: native cross-validation of sampled symbolic paths\n", pkgName)
+	sb.WriteString("func TestVerifXCheck(t *testing.T) {\n")
+	for i, s := range samples {
+		fmt.Fprintf(&sb, "\tverifXSample(%d, %q, %s, map[string]uint64{", i, s.Harness, s.Harness)
+		keys := make([]string, 0, len(s.Model))
+		for k := range s.Model {
+			keys = append(keys, k)
+		}
+		sortStrings(keys)
+		for _, k := range keys {
+			if !strings.HasPrefix(k, "img:") {
+				fmt.Fprintf(&sb, "%q: %s, ", k, s.Model[k])
+			}
+		}
+		sb.WriteString("}, map[uintptr]byte{")
+		for _, k := range keys {
+			if strings.HasPrefix(k, "img:") {
+				fmt.Fprintf(&sb, "%s: %s, ", strings.TrimPrefix(k, "img:"), s.Model[k])
+			}
+		}
+		sb.WriteString("}, []int{")
+		for _, x := range s.Schedule {
+			fmt.Fprintf(&sb, "%d, ", x)
+		}
+		fmt.Fprintf(&sb, "}, %v, map[string]uint64{", len(s.Schedule) > 0)
+		ek := make([]string, 0, len(s.Expect))
+		for k := range s.Expect {
+			ek = append(ek, k)
+		}
+		sortStrings(ek)
+		for _, k := range ek {
+			fmt.Fprintf(&sb, "%q: %s, ", k, s.Expect[k])
+		}
+		sb.WriteString("})\n")
+	}
+	sb.WriteString("\tverifXReport()\n}\n")
+	base := "xcheck_" + sanitize(u.Name)
+	testFile := filepath.Join(d, base+"_test.go")
+	os.WriteFile(testFile, []byte(sb.String()), 0o644)
+	tmpl, err := os.ReadFile(filepath.Join(verifRoot, "harness", "common", "replay_intrinsics.go.tmpl"))
+	if err != nil {
+		return 0, 0, err.Error()
+	}
+	intr := filepath.Join(d, base+"_intrinsics.go")
+	os.WriteFile(intr, []byte(strings.ReplaceAll(string(tmpl), "PACKAGE", pkgName)), 0o644)
+	ov := map[string]string{
+		filepath.Join(pkgDir, "zz_verif_replay_test.go"): testFile,
+		filepath.Join(pkgDir, "zz_verif_intrinsics.go"):  intr,
+	}
+	for virt, real := range u.VirtFiles {
+		ov[filepath.Join(repo, virt)] = filepath.Join(repo, real)
+	}
+	for _, f := range u.Files {
+		real := filepath.Join(verifRoot, "harness", id, f)
+		if _, err := os.Stat(real); err != nil {
+			real = filepath.Join(workDir(id), f)
+		}
+		ov[filepath.Join(pkgDir, "zz_verif_"+filepath.Base(f))] = substPkg(real, pkgName, d)
+	}
+	for _, rel := range u.XInstr {
+		src, err := os.ReadFile(filepath.Join(repo, rel))
+		if err != nil {
+			continue
+		}
+		ins, err := InstrumentAtomics(src)
+		if err != nil {
+			return 0, 0, "instrumentation failed: " + err.Error()
+		}
+		out := filepath.Join(d, base+"_instr_"+filepath.Base(rel))
+		os.WriteFile(out, ins, 0o644)
+		ov[filepath.Join(repo, rel)] = out
+	}
+	ovFile := filepath.Join(d, base+".overlay.json")
+	ob, _ := json.Marshal(map[string]interface{}{"Replace": ov})
+	os.WriteFile(ovFile, ob, 0o644)
+	spec := &ReplaySpec{Pkg: u.Pkg, Flags: u.XFlags, Arch: u.Arch}
+	args := []string{"test", "-vet=off", "-count=1", "-overlay", ovFile, "-run", "TestVerifXCheck", "-v"}
+	args = append(args, spec.Flags...)
+	args = append(args, spec.Pkg)
+	cmd := exec.Command("go", args...)
+	cmd.Dir = repo
+	arch := u.Arch
+	if arch == "" {
+		arch = "amd64"
+	}
+	cmd.Env = append(os.Environ(), "GOFLAGS=-mod=mod", "GOPROXY=off", "GOSUMDB=off", "GOTOOLCHAIN=local", "GOARCH="+arch)
+	outb, _ := cmd.CombinedOutput()
+	out := string(outb)
+	os.WriteFile(filepath.Join(d, base+".log"), outb, 0o644)
+	for _, l := range strings.Split(out, "\n") {
+		if strings.HasPrefix(l, "VERIF-XCHECK ") {
+			fmt.Sscanf(l, "VERIF-XCHECK ok=%d fail=%d", &ok, &fail)
+			return ok, fail, ""
+		}
+	}
+	return 0, 0, "(native run produced no report; see " + filepath.Join(d, base+".log") + ")"
+}
